@@ -161,8 +161,9 @@ Fixpoint int_bytes (k : nat) (w : int) : bytes :=
   | O => []
   | S k' => Z.to_N (Uint63.to_Z (Uint63.land w 255%uint63)) :: int_bytes k' (Uint63.lsr w 8%uint63)
   end.
-Definition bytes_of_ints (n : N) (ws : list int) : bytes :=
-  firstn (N.to_nat n) (flat_map (int_bytes 7) ws).
+(** long strings as lists of short lists (long flat list literals parse slowly in coqc) *)
+Definition bytes_of_ints (n : N) (ws : list (list int)) : bytes :=
+  firstn (N.to_nat n) (flat_map (int_bytes 7) (concat ws)).
 
 (** a single-bit flip of the sender's input: region 0 DstIA, 1 SrcIA (bit index 0..63 in [idx], [bit] unused),
     2 raw dst address, 3 raw src address, 4 the L4 bytes in front of the checksum, 5 payload *)
@@ -197,8 +198,8 @@ Inductive case :=
 (* one serialization: address header, L4 header fields, payload; the implementation's result
    (code 0 ok + L4 bytes, 1 error, 3 panic); then single-bit flips of the input
    (region, index, bit) with the checksum the implementation writes for the flipped input *)
-| CSer (h : addr_hdr) (l : l4) (plen : N) (payload : list int)
-       (impl_code : N) (impl_len : N) (impl : list int)
+| CSer (h : addr_hdr) (l : l4) (plen : N) (payload : list (list int))
+       (impl_code : N) (impl_len : N) (impl : list (list int))
        (flips : list (N * N * N * N)).
 
 Definition prelen (l : l4) : N := match l with UDP _ _ _ => 6 | SCMP _ _ => 2 end.
@@ -211,15 +212,22 @@ Definition model_flip (h : addr_hdr) (l : l4) (upper0 : bytes) (f : N * N * N * 
   | _ => 65536
   end.
 
+(** put a checksum into the checksum field *)
+Definition set_ck (prelen : N) (upper : bytes) (ck : N) : bytes :=
+  firstn (N.to_nat prelen) upper ++ be 2 ck ++ skipn (N.to_nat prelen + 2) upper.
+
 (** oracle side of a flip, on the implementation's bytes: with the flipped bit and the unchanged
-    checksum the verification sum is no longer 0xFFFF, and the checksum the implementation writes for
-    the flipped input is a different one *)
+    checksum the verification sum is no longer 0xFFFF, the checksum the implementation writes for
+    the flipped input is a different one, and with that one in place the sum is 0xFFFF again (the
+    flipped input is just another message) *)
 Definition flip_oracle (h : addr_hdr) (l : l4) (impl : bytes) (f : N * N * N * N) : bool :=
   let '(region, idx, bit, ck') := f in
   let len := N.of_nat (length impl) in
-  match verify_sum (flip_hdr h region idx bit) len (flip_upper (prelen l) impl region idx bit) (proto_of l) with
-  | Ok s => negb (s =? 65535) && negb (ck' =? ck_of (prelen l) impl)
-  | _ => false
+  let h' := flip_hdr h region idx bit in
+  let u' := flip_upper (prelen l) impl region idx bit in
+  match verify_sum h' len u' (proto_of l), verify_sum h' len (set_ck (prelen l) u' ck') (proto_of l) with
+  | Ok s, Ok s' => negb (s =? 65535) && negb (ck' =? ck_of (prelen l) impl) && (s' =? 65535)
+  | _, _ => false
   end.
 
 Definition even_len (l : bytes) : bool := Nat.even (length l).
